@@ -332,7 +332,14 @@ def run(rep, tier, seed):
         else: ctx_ok += 1
     rep.cov["paragraphs_context_independent"] = ctx_ok
     nb = blocks_part(rep, tier, rng, bad)
-    rep.cov["evaluations"] = len(lines) + len(clines) + nb + len(cjobs)
+    # the delimiter rules: model/Ambidextrous.v == compiled function, and context independence on the compiled function
+    from checks import ambi
+    abad, an = ambi.part(rep, tier, rng)
+    aseen = set()
+    for kind, what, rp in abad:
+        if kind not in aseen:
+            aseen.add(kind); rep.violation(kind, what, rp)
+    rep.cov["evaluations"] = len(lines) + len(clines) + nb + len(cjobs) + an
     rep.cov["documents_rendered_as_specified"] = ok
     rep.cov["documents_compositional"] = comp_ok
     rep.cov["blocks_by_kind"] = kinds
@@ -349,13 +356,16 @@ def run(rep, tier, seed):
         if kind in seen: continue
         seen.add(kind)
         rep.violation(kind, what, dict(case=c, no_failing_input=(kind == "spec-error"), broken="SpecRender evaluation" if kind == "spec-error" else None))
-    if not res["ok"] and not bad:
+    if not res["ok"] and not bad and not abad:
         rep.violation("proof-broken", "Properties_C03 no longer checks: %s" % res["failed"],
                       dict(no_failing_input=True, broken="theorems of coq/props/Properties_C03.v (%s)" % res["failed"], coq_output=res.get("output", "")[-3000:]))
 
 
 def replay(rep, r):
     rep.cov.update(evaluations=1, distinct_nontrivial=1, obligations=1, discharged=1, checker_cmd="replay", rule="replay")
+    if str(r.get("key", "")).startswith(("ambidextrous", "emphasis-flags")):
+        from checks import ambi
+        return ambi.replay(rep, r)
     c = r.get("case", r)
     rep.cov["samples"] = [c.get("tokens", "")[:200]]
     hd = c["tokens"].split("|")[0].split()
